@@ -148,12 +148,12 @@ impl Axecutor {
             .iter()
             .find(|area| {
                 // Start address is in range of memory area
-                area.start <= address && address < area.start + area.length
+                area.start <= address && address - area.start < area.length
             })
             .ok_or_else(|| self.collect_mem_error_hints(address, length, "Read".to_string()))?;
 
         // Make sure it's in range before doing the slice access below
-        if address + length > area.start + area.length {
+        if length > area.length - (address - area.start) {
             return Err(self.collect_mem_error_hints(address, length, "Read".to_string()));
         }
 
@@ -227,7 +227,7 @@ impl Axecutor {
             .state
             .memory
             .iter()
-            .find(|area| area.start <= address && address < area.start + area.length)
+            .find(|area| area.start <= address && address - area.start < area.length)
             .ok_or_else(|| {
                 self.collect_mem_error_hints(address, 15, "Read executable".to_string())
             })?;
@@ -257,11 +257,11 @@ impl Axecutor {
 
     fn collect_mem_error_hints(&self, address: u64, length: u64, operation: String) -> AxError {
         // check if start or end address is within any of the memory areas
+        // (computed in 128 bit: address + length may exceed the 64-bit address space)
+        let end = address as u128 + length as u128;
         for area in &self.state.memory {
-            if address >= area.start
-                && address < area.start + area.length
-                && address + length > area.start + area.length
-            {
+            let area_end = area.start as u128 + area.length as u128;
+            if address >= area.start && (address as u128) < area_end && end > area_end {
                 return AxError::from(format!(
                     "Memory {} of length {} at address {:#x} over end of memory area {} (start {:#x}, length {})",
                     operation.to_lowercase(),
@@ -278,7 +278,8 @@ impl Axecutor {
         }
 
         for area in &self.state.memory {
-            if address + length > area.start && address + length <= area.start + area.length {
+            let area_end = area.start as u128 + area.length as u128;
+            if end > area.start as u128 && end <= area_end {
                 return AxError::from(format!(
                     "Memory {} of length {} at address {:#x} before start of memory area {} (start {:#x}, length {})",
                     operation.to_lowercase(),
@@ -368,7 +369,7 @@ impl Axecutor {
             .state
             .memory
             .iter_mut()
-            .find(|area| area.start <= address && address < area.start + area.length)
+            .find(|area| area.start <= address && address - area.start < area.length)
         {
             Some(area) => area,
             None => {
@@ -381,7 +382,7 @@ impl Axecutor {
         };
 
         // Range check before doing the copy_from_slice below
-        if address + data.len() as u64 > area.start + area.length {
+        if data.len() as u64 > area.length - (address - area.start) {
             return Err(self.collect_mem_error_hints(
                 address,
                 data.len() as u64,
